@@ -293,11 +293,17 @@ def run(ctx):
     ctx.check(bool(tabs) and all(tb is w.table for tb in tabs), "R3", "a compound string given with table=T is parsed with T",
               f"parsed with {[getattr(tb, 'name', tb) for tb in tabs]}", fsite(ctx, DH))
     eq(ctx, "R3", "D2O_sld('<string>', table=T) = D2O_sld(formula, table=T)", gs[0], got[0], s_sld)
-    # private table: H[1], H and D are taken from the compound's table
-    f = ctx.src.func(DH)
-    names = {n.id for n in ast.walk(f.node) if isinstance(n, ast.Name)}
-    ctx.check("default_table" in names, "R3", "labile H, H and D are looked up in the table given with the compound",
-              "_D2O_slds does not resolve the table argument", fsite(ctx, DH))
+    # (private table: that H[1], H and D are taken from the table given with the compound is decided by the call above - the
+    # standing public table there has no atoms at all, so a lookup in it cannot give the value compared)
+    # the same formula object asked again after its density was corrected: the answer follows the object as it is now
+    mol_seq = I.call(fm, [dict(comp)], {"density": rho})
+    I.call(dsld, [mol_seq], dict(kw, volume_fraction=vf, D2O_fraction=d))
+    rho_b = sp.Symbol("rho_corrected", positive=True)
+    I.setattr(mol_seq, "density", rho_b)
+    again = I.call(dsld, [mol_seq], dict(kw, volume_fraction=vf, D2O_fraction=d))
+    fresh = I.call(dsld, [I.call(fm, [dict(comp)], {"density": rho_b})], dict(kw, volume_fraction=vf, D2O_fraction=d))
+    for i, nm in enumerate(("real", "imaginary")):
+        eq(ctx, "R3", f"{nm} SLD of the same formula object asked again after its density was corrected", again[i], fresh[i], s_sld)
 
     # biomolecule class
     Mol = I.get_class("fasta.Molecule")
